@@ -166,6 +166,12 @@ def run(ctx):
     focusprogs += fp[:(400 if thorough else 60)]
     focusprogs = list(dict.fromkeys(focusprogs))
     ctx.extra["focus_enumrefs_programs"] = len(focusprogs)
+    # every invalidating edit applied to a program in which all of them are applicable (focus "breaks", exhaustive)
+    r = ctx.tlc_must_hold("IDL", "i.cfg", cfg_text=idl_cfg("FALSE", 1, "TRUE", focus="breaks").replace("CHECK_DEADLOCK", "CONSTRAINT Bounded\nCHECK_DEADLOCK"),
+                          workers=4, timeout=600)
+    breakprogs = [q for q in dict.fromkeys(s[5:] for s in r.printed if s.startswith("PROG ")) if json.loads(q)["broken"] != "none"]
+    if len(set(json.loads(q)["broken"] for q in breakprogs)) < 18:
+        raise MachineryError("focus 'breaks' yields only %d kinds of invalid programs" % len(set(json.loads(q)["broken"] for q in breakprogs)))
     # the families of constructs the generators are known to mishandle, generated apart from everything else
     hardprogs = {}
     for hard in ("keywords", "container-keys"):
@@ -195,7 +201,7 @@ def run(ctx):
     bykind = {}
     for p in broken:
         bykind.setdefault(json.loads(p)["broken"], []).append(p)
-    broken = [p for k in sorted(bykind) for p in bykind[k][:(6 if thorough else 2)]]
+    broken = [p for k in sorted(bykind) for p in bykind[k][:(6 if thorough else 2)]] + [q for q in breakprogs if q not in set(progs)]
     allp = valid + broken + [q for h in sorted(hardprogs) for q in hardprogs[h]]
     inp = os.path.join(ctx.scratch, "c11_progs.ndjson")
     open(inp, "w").write("\n".join(allp) + "\n")
